@@ -48,6 +48,10 @@ func (u *Unknown) ReadFrom(r io.Reader) (int64, error) {
 	if err != nil {
 		return cr.readCount, err
 	}
+	if size > MaxMetadataSize {
+		// The size comes from untrusted input; do not allocate for it.
+		return cr.readCount, ErrTooLong
+	}
 
 	codeSize := varint.UvarintSize(v)
 	sizeSize := varint.UvarintSize(size)
